@@ -285,15 +285,18 @@ def run_baseline(meta, present, style):
         shutil.rmtree(root, ignore_errors=True)
     if rc != 0 or rc2 != 0:
         raise vlib.InfraError("baseline run failed rc=%s/%s\n%s" % (rc, rc2, (err + err2)[-1000:]))
-    syms = {}
+    xml_errors = []
     for e in ET.fromstring(err).iter("error"):
-        syms[(e.get("id"), e.get("msg"))] = [x.text for x in e.findall("symbol")]
+        xml_errors.append({"id": e.get("id"), "msg": e.get("msg"), "syms": [x.text for x in e.findall("symbol")], "used": False,
+                           "locs": set((l.get("file"), int(l.get("line")), int(l.get("column"))) for l in e.findall("location"))})
     findings = []
     for f in projgen.parse_findings(err2):
-        if (f["id"], f["msg"]) not in syms:
+        hit = [x for x in xml_errors if not x["used"] and x["id"] == f["id"] and x["msg"] == f["msg"] and (f["file"], f["line"], f["col"]) in x["locs"]]
+        if not hit:
             raise vlib.InfraError("baseline: %s reported with --template but not with --xml" % f["key"])
-        findings.append({"id": f["id"], "file": f["file"], "line": f["line"], "col": f["col"], "syms": syms[(f["id"], f["msg"])]})
-    if len(findings) != len(syms):
+        hit[0]["used"] = True
+        findings.append({"id": f["id"], "file": f["file"], "line": f["line"], "col": f["col"], "syms": hit[0]["syms"]})
+    if not all(x["used"] for x in xml_errors):
         raise vlib.InfraError("baseline: --xml and --template report different findings")
     return {"present": present, "style": style, "findings": findings}
 
@@ -444,7 +447,20 @@ def main(tier, seed, replay=None):
                               % json.dumps(basebad[0])[:1500])
 
     violations = bad_to_violations(bad, all_obs, all_rendered) + unit_violations(ubad)
-    rc, new, known = vlib.verdict(PID, violations[:400])
+    # every class is reported once; of the classes that are not known findings only the first PRINT_CAP are printed
+    known_keys = vlib.known_findings(PID)
+    shown, unknown = [], set()
+    for v in violations:
+        if v["key"] not in known_keys:
+            if v["key"] not in unknown and len(unknown) >= PRINT_CAP:
+                continue
+            unknown.add(v["key"])
+        shown.append(v)
+    all_unknown = set(v["key"] for v in violations if v["key"] not in known_keys)
+    rc, new, known = vlib.verdict(PID, shown)
+    if len(all_unknown) > len(unknown):
+        print("  ... and %d more deviation classes (all stored under %s)" % (len(all_unknown) - len(unknown), os.path.join(vlib.OUT, "replays", PID)))
+    new = len(all_unknown)
     nruns = sum(len(o["runs"]) for o in all_obs)
     nontrivial = len(set(vlib.digest([o["pick"]["forms"], o["pick"]["present"], o["pick"]["style"]]) for o in all_obs
                          if any(len(r["findings"]) < len(all_findings(meta, o["pick"])) for r in o["runs"])))
